@@ -356,7 +356,12 @@ def _expr_txt(e):
     if k == "lit":
         return str(e.get("v"))
     if k == "mem":
-        return _expr_txt(e.get("b")) + "." + e["n"] if e.get("b") is not None else e["n"]
+        if not e.get("n"):          # anonymous struct / union member
+            return _expr_txt(e.get("b"))
+        bt = _expr_txt(e.get("b")) if e.get("b") is not None else ""
+        if bt.endswith("->"):
+            return bt + e["n"]
+        return bt + "." + e["n"] if bt else e["n"]
     if k == "idx":
         return _expr_txt(e["b"]) + "[" + _expr_txt(e["i"]) + "]"
     if k in ("bin", "asg"):
@@ -364,13 +369,38 @@ def _expr_txt(e):
     if k == "un":
         return e["op"] + _expr_txt(e["e"])
     if k == "call":
+        op = e.get("op")
+        args = [_expr_txt(a) for a in e.get("a", [])]
+        if op:
+            if e.get("obj") is not None:
+                o = _expr_txt(e["obj"])
+                if op == "->":
+                    return o + "->"
+                if op == "*" and not args:
+                    return "*" + o
+                if op in ("++", "--"):
+                    return op + o
+                if op == "[]":
+                    return o + "[" + ",".join(args) + "]"
+                if op == "()":
+                    return o + "(" + ",".join(args) + ")"
+                return o + op + ",".join(args)
+            if len(args) == 2:
+                return args[0] + op + args[1]
+            return op + ",".join(args)
         callee = ""
         if e.get("obj") is not None:
-            callee = _expr_txt(e["obj"]) + "."
-        return callee + (e.get("op") or "") + ("" if e.get("op") else _fname(e)) + "(" + ",".join(_expr_txt(a) for a in e.get("a", [])) + ")"
-    if k == "ctor":
+            o = _expr_txt(e["obj"])
+            callee = "" if o == "this" else (o if o.endswith("->") else o + ".")
+        name = _fname(e)
+        if name == "operator bool":
+            return callee.rstrip(".")
+        return callee + name + "(" + ",".join(args) + ")"
+    if k in ("ctor", "ilist"):
         a = e.get("a", [])
         return _expr_txt(a[0]) if len(a) == 1 else "T{" + ",".join(_expr_txt(x) for x in a) + "}"
+    if k == "cond":
+        return _expr_txt(e["c"]) + "?" + _expr_txt(e["t"]) + ":" + _expr_txt(e["f"])
     if k == "this":
         return "this"
     return "<%s>" % k
